@@ -15,8 +15,8 @@ from auditok.io import BufferAudioSource, RawAudioSource, StdinAudioSource, Wave
 
 ID = "C11"
 LEVEL = "exploration"
-TIERS = {"quick": {"shards": 16, "budget_s": 25, "random": 1200, "exh_len": 3},
-         "thorough": {"shards": 16, "budget_s": 420, "random": 60000, "exh_len": 5}}
+TIERS = {"quick": {"shards": 16, "budget_s": 120, "random": 1200, "exh_len": 3},
+         "thorough": {"shards": 16, "budget_s": 900, "random": 60000, "exh_len": 5}}
 RULE = ("Operation histories on the four source kinds (BufferAudioSource, RawAudioSource, WaveAudioSource, StdinAudioSource fed "
         "through a real os.pipe by a writer that dribbles 1-7-byte, sample-unaligned chunks) run in lock-step on the same "
         "audio (widths 1/2/4, 1-3 channels, 0..40 samples).  Operations: read(n>0), read(negative), read(None), read(0), "
